@@ -1,4 +1,5 @@
 import Tibc.Props.C05
+import Tibc.Expect.Packet
 #print axioms Tibc.C05.subWrap_exact
 #print axioms Tibc.C05.transferOwner_exact
 #print axioms Tibc.C05.transferOwner_err_unchanged
